@@ -769,6 +769,67 @@ def legacy_key_history(rng, res, no):
         res.fail("oracle", case, {"why": "recording with the deprecated key dictionary alone: " + "; ".join(problems)})
 
 
+def gpg_default_history(rng, res, no):
+    """`gpg_use_default=True`: start and stop sign with whatever the gpg home's default key is. One preliminary record
+    appears at start under that key's id, stop turns exactly it into the final link (same id, verifies with that key,
+    materials of start / products of stop) - and leaves alone the preliminary record the same key holds for ANOTHER step
+    (`st` vs `st.2` / `st2`). Oracle only."""
+    if not W.gpg_available():
+        return
+    STOP_KW.clear()
+    KEY_FORM[0] = "signer"
+    import in_toto.runlib as rl
+    import securesystemslib.gpg.functions as gpgf
+    from in_toto.models.metadata import Metadata
+    g = W.gpg_key(["no_sub", "no_sub2", "two_subs"][no % 3])
+    other_step = ["st2", "st.2", "s"][(no // 3) % 3]
+    root = tempfile.mkdtemp(prefix="verif-c12g-")
+    cwd = os.getcwd()
+    problems = []
+    try:
+        os.chdir(root)
+        open("m0", "wb").write(b"material\n")
+        try:
+            with quiet():
+                rl.in_toto_record_start(other_step, ["m0"], gpg_use_default=True, gpg_home=g.gpg_home)
+                rl.in_toto_record_start("st", ["m0"], gpg_use_default=True, gpg_home=g.gpg_home)
+            pre = sorted(f for f in os.listdir(".") if f.startswith(".st.") and f.endswith(".link-unfinished") and f.count(".") == 3)
+            if len(pre) != 1:
+                problems.append("preliminary records of step st after start: %r" % sorted(os.listdir(".")))
+            else:
+                kid8 = pre[0].split(".")[2]
+                open("p0", "wb").write(b"product\n")
+                with quiet():
+                    rl.in_toto_record_stop("st", ["p0"], gpg_use_default=True, gpg_home=g.gpg_home)
+                final = "st.%s.link" % kid8
+                names = sorted(os.listdir("."))
+                if final not in names or pre[0] in names:
+                    problems.append("after stop: %r" % names)
+                if ".%s.%s.link-unfinished" % (other_step, kid8) not in names:
+                    problems.append("the preliminary record of step %r is gone: %r" % (other_step, names))
+                if final in names:
+                    md = Metadata.load(final)
+                    sig = md.signatures[0]
+                    keyid = getattr(sig, "keyid", None) or sig["keyid"]
+                    try:
+                        md.verify_signature(gpgf.export_pubkey(keyid, g.gpg_home))
+                    except Exception as e:  # pylint: disable=broad-except
+                        problems.append("final link does not verify with the key that signed it: %s" % type(e).__name__)
+                    pl = md.get_payload()
+                    if pl.name != "st" or sorted(pl.materials) != ["m0"] or sorted(pl.products) != ["p0"]:
+                        problems.append("final link: name %r materials %r products %r" % (pl.name, sorted(pl.materials), sorted(pl.products)))
+        except Exception as e:  # pylint: disable=broad-except
+            problems.append("raised %s: %s" % (type(e).__name__, str(e)[:120]))
+    finally:
+        os.chdir(cwd)
+        shutil.rmtree(root, ignore_errors=True)
+    case = {"op": "gpg_default_history", "no": no, "other_step": other_step}
+    res.case(dict(case, problems=problems), True, not problems, sample_cap=1)
+    res.count("gpg_default_history")
+    if problems:
+        res.fail("oracle", case, {"why": "recording with the gpg home's default key: " + "; ".join(problems)})
+
+
 def interleaved(rng, res):
     KEY_FORM[0] = "signer"
     """start / stop / run for two step names and two keys in one directory."""
@@ -945,6 +1006,8 @@ def shard(seed, idx, n, tier):
     for j_ in range(n):
         stop_products_tree(rng, res, no=idx * n + j_)
     legacy_key_history(rng, res, idx)
+    if idx < 9:
+        gpg_default_history(rng, res, idx)
     for _ in range(max(1, n)):
         copied_prelim_case(rng, res)
     from harness import cliequiv
